@@ -104,7 +104,12 @@ type blk struct {
 	byz      bool
 	eip158   bool
 	num      uint64
+	// an existing empty coinbase was touched inside a frame that was rolled back
+	coinbaseTouchReverted bool
 }
+
+const causeTouchedCoinbase = "empty_coinbase_touched_in_reverted_frame"
+
 
 func (e *env) begin(coinbase common.Address, limitDelta int64) *blk {
 	parent := e.bc.CurrentBlock()
@@ -357,6 +362,20 @@ func (b *blk) judge(p *plan, tx *types.Transaction, rc *types.Receipt, tr *trace
 	wit.Receipt = fmt.Sprintf("status=%d gas_used=%d cumulative=%d logs=%d post_state=%x", rc.Status, rc.GasUsed, rc.CumulativeGasUsed, len(rc.Logs), rc.PostState)
 	where := fmt.Sprintf("block %d (%s) position %d, %s", b.num, e.cfgName, len(b.txs), p.describe())
 	bad := func(clause, detail string) { c.ViolateInput(clause, op, cause, where+": "+detail, wit) }
+	// the coinbase existed as an empty account and a frame that touched it with a
+	// zero-value call was rolled back earlier in this block (or in this very
+	// transaction): what is credited to it afterwards is a separate, known shape
+	touchedNow := p.Kind == "touch_empty_coinbase_fail" || (strings.HasPrefix(p.Kind, "touch_coinbase_fail") && pre[C] != nil && pre[C].empty())
+	if touchedNow {
+		b.coinbaseTouchReverted = true
+	}
+	badCoinbase := func(clause, detail string, lost *big.Int) {
+		if b.coinbaseTouchReverted && S != C && lost != nil && lost.Sign() > 0 {
+			c.ViolateInput(clause, "tx", causeTouchedCoinbase, where+": "+detail, wit)
+			return
+		}
+		bad(clause, detail)
+	}
 	failed := rc.Status == types.ReceiptStatusFailed
 	c.Count("tx_judged")
 	if b.byz {
@@ -375,7 +394,14 @@ func (b *blk) judge(p *plan, tx *types.Transaction, rc *types.Receipt, tr *trace
 	intr := refIntrinsic(p.Data, p.To == nil)
 	g := rc.GasUsed
 	if g < intr {
-		bad("gas_used_below_intrinsic", fmt.Sprintf("gasUsed %d < intrinsic %d", g, intr))
+		// after a refund the reported gas may lie below the intrinsic cost (yellow
+		// paper: refund up to half of what was consumed); without a refund-earning
+		// operation it may not. The refund itself is bounded below.
+		if tr.earning == 0 {
+			bad("gas_used_below_intrinsic", fmt.Sprintf("gasUsed %d < intrinsic %d and no refund was earned", g, intr))
+		} else {
+			c.Count("gas_used_below_intrinsic_after_refund")
+		}
 	}
 	if g > p.Gas {
 		bad("gas_used_above_limit", fmt.Sprintf("gasUsed %d > gas limit %d", g, p.Gas))
@@ -512,7 +538,11 @@ func (b *blk) judge(p *plan, tx *types.Transaction, rc *types.Receipt, tr *trace
 		}
 		if S != C {
 			if d := delta(C); d.Cmp(exp[C]) != 0 {
-				bad("coinbase_credit_wrong", fmt.Sprintf("coinbase balance changed by %v, expected %v (gasUsed %d x price %v, status %d)", d, exp[C], g, p.Price, rc.Status))
+				var lost *big.Int
+				if d.Sign() == 0 {
+					lost = exp[C]
+				}
+				badCoinbase("coinbase_credit_wrong", fmt.Sprintf("coinbase balance changed by %v, expected %v (gasUsed %d x price %v, status %d)", d, exp[C], g, p.Price, rc.Status), lost)
 			}
 		}
 		if aliased {
@@ -527,7 +557,11 @@ func (b *blk) judge(p *plan, tx *types.Transaction, rc *types.Receipt, tr *trace
 		c.Count("callee_pays_role_conservation")
 		if tr.suicides == 0 {
 			if s0.Cmp(s1) != 0 {
-				bad("role_set_not_conserved", fmt.Sprintf("sum of balances %v -> %v with no self-destruct", s0, s1))
+				var lost *big.Int
+				if s0.Cmp(s1) > 0 && delta(C).Sign() == 0 {
+					lost = new(big.Int).Sub(s0, s1)
+				}
+				badCoinbase("role_set_not_conserved", fmt.Sprintf("sum of balances %v -> %v with no self-destruct", s0, s1), lost)
 			}
 		} else if s1.Cmp(s0) > 0 {
 			bad("role_set_not_conserved", fmt.Sprintf("sum of balances rose %v -> %v", s0, s1))
@@ -581,11 +615,19 @@ func (b *blk) judge(p *plan, tx *types.Transaction, rc *types.Receipt, tr *trace
 			if len(post.get(a).Code) != len(pre.get(a).Code) {
 				clause = "code_survives_failed_execution"
 			}
-			sub := "other_account"
+			sub := cause + "/other_account"
 			if a == R {
-				sub = "recipient"
+				sub = cause + "/recipient"
+				if !ok0 && ok1 && x1.empty() {
+					// nothing but the bare account of the recipient appeared
+					sub = "empty_recipient_account_created"
+				}
+				if ok0 && !ok1 && x0.empty() && b.eip158 {
+					// an existing empty recipient disappeared
+					sub = "empty_recipient_account_deleted"
+				}
 			}
-			c.ViolateInput(clause, op, cause+"/"+sub, where+fmt.Sprintf(": account %s %s -> %s although execution failed", a.Hex(), describeAcct(x0, ok0), describeAcct(x1, ok1)), wit)
+			c.ViolateInput(clause, op, sub, where+fmt.Sprintf(": account %s %s -> %s although execution failed", a.Hex(), describeAcct(x0, ok0), describeAcct(x1, ok1)), wit)
 		}
 		// the sender and coinbase change in nothing but nonce / balance
 		for _, a := range []common.Address{S, C} {
